@@ -979,9 +979,12 @@ func (d *snEnv) runBatchCase(c snCase, rep, idx int) error {
 			return fmt.Errorf("bad batch case %q", c.Mut)
 		}
 		off, rest = c.Mut[:at], c.Mut[at+1:]
-		if _, err := fmt.Sscanf(rest, "%d/%d:%s", &pos, &size, &mix); err != nil {
+		if n, err := fmt.Sscanf(rest, "%d/%d:%s", &pos, &size, &mix); n < 2 {
 			return fmt.Errorf("bad batch case %q: %v", c.Mut, err)
 		}
+	}
+	if off == "revert" || off == "oog" || off == "create" {
+		return d.runVmCase(c, off, pos, size, rep, idx)
 	}
 	offender, other := "s1", "v"
 	if mix == "diff" {
@@ -1084,7 +1087,7 @@ func (d *snEnv) runBatchCase(c snCase, rep, idx int) error {
 				return nil, nil, err
 			}
 			msgs = append(msgs, m)
-			parts = append(parts, snPart{Signer: who, Nonce: o.Nonce, Amount: amounts[i].String()})
+			parts = append(parts, snPart{ID: m.Hash, Signer: who, Nonce: o.Nonce, Amount: amounts[i].String()})
 		}
 		e := snDefaultEnvelope(msgs)
 		if fromOverride >= 0 {
@@ -1112,6 +1115,71 @@ func (d *snEnv) runBatchCase(c snCase, rep, idx int) error {
 	d.submit("check", "mut", mt, c, mutated)
 	d.submit("deliver", "mut", mt, c, mutated)
 	d.submit("deliver", "orig", rt, c, repaired)
+	d.commit()
+	return nil
+}
+
+// runVmCase: a batch of one sender (s1) in which every message is authorised, but the one at
+// `pos` fails inside the virtual machine (kind revert / oog) or is a contract creation.  The
+// batch goes through CheckTx and DeliverTx; after a commit every message is wrapped again alone
+// and delivered: each is a replay of an already included transaction.
+func (d *snEnv) runVmCase(c snCase, kind string, pos, size, rep, idx int) error {
+	const signer = "s1"
+	k, rcpt := d.key(signer), d.key("r")
+	chain := d.n.App.EvmKeeper.ChainID()
+	next := d.seqOf(signer)
+	var msgs []*evmtypes.MsgEthereumTx
+	var parts []snPart
+	for i := 1; i <= size; i++ {
+		route := c.Route
+		if i != pos && (idx+i)%2 == 1 {
+			route = "eth-dynamicfee"
+		}
+		amount := big.NewInt(int64(1000*i) + d.rnd.Int63n(900))
+		o := d.ethOpts(route, next, rcpt, amount, 21000, nil, chain)
+		if i == pos {
+			o.Value = big.NewInt(0)
+			amount = big.NewInt(0)
+			switch kind {
+			case "revert":
+				o.To, o.Gas = &d.reverter, 100000
+			case "oog":
+				o.To, o.Gas = &d.burner, 60000
+			case "create":
+				o.To, o.Gas, o.Data = nil, 300000, counterInitCode(2+idx%3)
+			}
+		}
+		m, err := BuildEthMsg(k, o)
+		if err != nil {
+			return err
+		}
+		msgs = append(msgs, m)
+		parts = append(parts, snPart{ID: m.Hash, Signer: signer, Nonce: next, Amount: amount.String()})
+		next++
+	}
+	singles := make([][]byte, size)
+	for i, m := range msgs {
+		bz, err := snDefaultEnvelope([]*evmtypes.MsgEthereumTx{snCloneEth(m)}).Bytes()
+		if err != nil {
+			return err
+		}
+		singles[i] = bz
+	}
+	batch, err := snDefaultEnvelope(msgs).Bytes()
+	if err != nil {
+		return err
+	}
+	id := fmt.Sprintf("w%d:%d:%s", rep, idx, c.Route)
+	bt := &snTxRec{ID: id, Signer: signer, Rcpt: "r", Amount: parts[0].Amount, Nonce: parts[0].Nonce, NM: size, Route: c.Route,
+		Q: "good", Qpos: pos, Parts: parts}
+	d.submit("check", "mut", bt, c, batch)
+	d.submit("deliver", "mut", bt, c, batch)
+	d.commit()
+	for i := range singles {
+		rt := &snTxRec{ID: fmt.Sprintf("%s#%d", id, i+1), Signer: signer, Rcpt: "r", Amount: parts[i].Amount, Nonce: parts[i].Nonce,
+			NM: 1, Route: c.Route, Q: "good", Qpos: i + 1, Parts: parts[i : i+1]}
+		d.submit("deliver", "replay", rt, c, singles[i])
+	}
 	d.commit()
 	return nil
 }
